@@ -1203,11 +1203,36 @@ func (pc *PeerConnection) SetRemoteDescription(desc SessionDescription) error {
 		return err
 	}
 
-	if err := pc.setDescription(&desc, stateChangeOpSetRemote); err != nil {
+	// Everything that depends only on the description is validated before the
+	// signaling state changes, so that a rejected description leaves no trace.
+	weOffer := desc.Type == SDPTypeAnswer
+	detectedPlanB := descriptionIsPlanB(&desc, pc.log)
+	if pc.configuration.SDPSemantics != SDPSemanticsUnifiedPlan {
+		detectedPlanB = descriptionPossiblyPlanB(&desc)
+	}
+	if !weOffer && !detectedPlanB {
+		for _, media := range desc.parsed.MediaDescriptions {
+			if getMidValue(media) == "" {
+				return errPeerConnRemoteDescriptionWithoutMidValue
+			}
+		}
+	}
+	iceDetails, err := extractICEDetails(desc.parsed, pc.log)
+	if err != nil {
+		return err
+	}
+	var fingerprint, fingerprintHash string
+	if !isRenegotiation {
+		if fingerprint, fingerprintHash, err = extractFingerprint(desc.parsed); err != nil {
+			return err
+		}
+	}
+
+	if err = pc.setDescription(&desc, stateChangeOpSetRemote); err != nil {
 		return err
 	}
 
-	if err := pc.api.mediaEngine.updateFromRemoteDescription(*desc.parsed); err != nil {
+	if err = pc.api.mediaEngine.updateFromRemoteDescription(*desc.parsed); err != nil {
 		return err
 	}
 
@@ -1232,13 +1257,6 @@ func (pc *PeerConnection) SetRemoteDescription(desc SessionDescription) error {
 
 	var transceiver *RTPTransceiver
 	localTransceivers := append([]*RTPTransceiver{}, pc.GetTransceivers()...)
-	detectedPlanB := descriptionIsPlanB(pc.RemoteDescription(), pc.log)
-	if pc.configuration.SDPSemantics != SDPSemanticsUnifiedPlan {
-		detectedPlanB = descriptionPossiblyPlanB(pc.RemoteDescription())
-	}
-
-	weOffer := desc.Type == SDPTypeAnswer
-
 	if !weOffer && !detectedPlanB { //nolint:nestif
 		for _, media := range pc.RemoteDescription().parsed.MediaDescriptions {
 			midValue := getMidValue(media)
@@ -1315,11 +1333,6 @@ func (pc *PeerConnection) SetRemoteDescription(desc SessionDescription) error {
 		}
 	}
 
-	iceDetails, err := extractICEDetails(desc.parsed, pc.log)
-	if err != nil {
-		return err
-	}
-
 	if isRenegotiation && pc.iceTransport.haveRemoteCredentialsChange(iceDetails.Ufrag, iceDetails.Password) {
 		// An ICE Restart only happens implicitly for a SetRemoteDescription of type offer
 		if !weOffer {
@@ -1357,11 +1370,6 @@ func (pc *PeerConnection) SetRemoteDescription(desc SessionDescription) error {
 	}
 
 	remoteIsLite := isIceLiteSet(desc.parsed)
-
-	fingerprint, fingerprintHash, err := extractFingerprint(desc.parsed)
-	if err != nil {
-		return err
-	}
 
 	iceRole := ICERoleControlled
 	// If one of the agents is lite and the other one is not, the lite agent must be the controlled agent.
